@@ -225,9 +225,24 @@ func (s *JavaIdentifierListener) EnterExpression(ctx *parser.ExpressionContext) 
 		statementCtx := ctx.GetParent().(*parser.StatementContext)
 		firstChild := statementCtx.GetChild(0).(antlr.ParseTree).GetText()
 		if strings.ToLower(firstChild) == "return" {
-			currentMethod.IsReturnNull = currentMethod.IsReturnNull || strings.Contains(ctx.GetText(), "null")
+			currentMethod.IsReturnNull = currentMethod.IsReturnNull || containsNullLiteral(ctx)
 		}
 	}
+}
+
+// containsNullLiteral looks for the null literal among the tokens of the returned expression:
+// an identifier such as nullable or a string "null" is not one
+func containsNullLiteral(tree antlr.Tree) bool {
+	for _, child := range tree.GetChildren() {
+		if terminal, ok := child.(antlr.TerminalNode); ok {
+			if terminal.GetSymbol().GetTokenType() == parser.JavaLexerNULL_LITERAL {
+				return true
+			}
+		} else if containsNullLiteral(child) {
+			return true
+		}
+	}
+	return false
 }
 
 func (s *JavaIdentifierListener) GetNodes() []core_domain.CodeDataStruct {
